@@ -5,14 +5,22 @@
 //! ingredients, redaction of an ingredient assertion, update manifest, compressed with ingredients, sidecar) and taken out
 //! of the signed asset with `jumbf_io::load_jumbf_from_memory`.
 //!   (a) produced stores:  store_to_jumbf(store_from_jumbf(b)) == b, byte for byte;
-//!   (b) EVERY single-byte mutant m of the mutation seeds (every offset x {^0x01, ^0x80, +1, 0x00, 0xFF} quick / x all 255
-//!       other values thorough, capped per seed as stated in the evidence): if the parser accepts m, then with
+//!   (b) EVERY single-byte mutant m of the mutation seeds: every offset x a value set in priority order {^0x01, ^0x80, '/', +1,
+//!       0x00, 0xFF, other xor masks} whose size is fixed per seed (quick: 30000/len clamped to 2..255, compressed seeds 1;
+//!       thorough: all 255 for stores <= 5000 bytes, 64 for larger ones, 16 / 2 for compressed ones — brotli re-compression
+//!       costs 30-60 ms per accepted mutant) and stated in the evidence: if the parser accepts m, then with
 //!       c = to(from(m)):  from(c) is accepted and to(from(c)) == c.
 //! Independent part: a 60-line JUMBF box walker that names the box a mutated offset lies in (violation keys, coverage per box).
 //!
-//! Mutants caught (tools/mutant_run.sh C <diff> C18 quick):
-//!   /verif/mutants/C18-compressed-flag-lost.diff (from_jumbf no longer carries the "compressed" flag into the claim: brob stores re-serialise uncompressed)
-//!   /verif/mutants/C18-update-flag-lost.diff     (from_jumbf no longer marks update manifests: c2um boxes re-serialise as c2ma)
+//! Finding on the unchanged tree: a manifest whose assertion-store / claim / signature box carries an unrecognised LABEL is
+//! accepted (boxes are found by UUID, the tracker is in continue mode) but the box is left out when the store is written
+//! (box order is recorded by label), so to(from(m)) lacks a mandatory box and is rejected: keys "reserialised-rejected at=…".
+//!
+//! Mutants caught (quick tier, patched scratch worktree, /verif/target-mut-C):
+//!   /verif/mutants/C18-compressed-flag-lost.diff from_jumbf no longer carries the "compressed" flag into the claim (brob stores re-serialise uncompressed)
+//!       -> "produced-store roundtrip differs seed=compressed-jpeg|compressed-ingredients-jpeg at=/jumb:header"
+//!   /verif/mutants/C18-update-flag-lost.diff     from_jumbf no longer marks update manifests (c2um boxes re-serialise as c2ma)
+//!       -> "produced-store roundtrip differs seed=update-jpeg at=/c2pa/<manifest>/jumd:payload"
 
 use c2pa::{
     verif_hooks::{store_from_jumbf, store_to_jumbf},
@@ -224,6 +232,14 @@ fn first_diff(a: &[u8], b: &[u8]) -> usize {
     a.iter().zip(b.iter()).position(|(x, y)| x != y).unwrap_or(a.len().min(b.len()))
 }
 
+/// every violation class (key without the seed name) with its number of cases — the Run keeps at most 2000 violations
+static CLASSES: Mutex<BTreeMap<String, u64>> = Mutex::new(BTreeMap::new());
+
+fn violate(run: &Run, class: String, seed: &str, what: String, case: Value) {
+    *CLASSES.lock().unwrap().entry(class.clone()).or_insert(0) += 1;
+    run.violation(format!("{class} seed={seed}"), what, case);
+}
+
 #[derive(Default)]
 struct Tally {
     rejected: AtomicU64,
@@ -235,7 +251,7 @@ struct Tally {
 fn judge_mutant(run: &Run, ctx: &Context, seed: &str, region: &str, m: &[u8], case: &dyn Fn() -> Value, verbose: bool) -> &'static str {
     let s1 = match from(ctx, m) {
         Err(p) => {
-            run.violation(format!("panic parse at={region} seed={seed}"), format!("store_from_jumbf panicked: {p}"), case());
+            violate(run, format!("panic parse at={region}"), seed, format!("store_from_jumbf panicked: {p}"), case());
             return "panic";
         }
         Ok(Err(e)) => {
@@ -248,11 +264,11 @@ fn judge_mutant(run: &Run, ctx: &Context, seed: &str, region: &str, m: &[u8], ca
     };
     let c = match to(&s1) {
         Err(p) => {
-            run.violation(format!("panic serialise at={region} seed={seed}"), format!("store_to_jumbf panicked on an accepted store: {p}"), case());
+            violate(run, format!("panic serialise at={region}"), seed, format!("store_to_jumbf panicked on an accepted store: {p}"), case());
             return "panic";
         }
         Ok(Err(e)) => {
-            run.violation(format!("accepted-not-serialisable at={region} err={e} seed={seed}"), format!("the parser accepts the bytes but the parsed store cannot be serialised: {e}"), case());
+            violate(run, format!("accepted-not-serialisable at={region} err={e}"), seed, format!("the parser accepts the bytes but the parsed store cannot be serialised: {e}"), case());
             return "not-serialisable";
         }
         Ok(Ok(c)) => c,
@@ -264,11 +280,11 @@ fn judge_mutant(run: &Run, ctx: &Context, seed: &str, region: &str, m: &[u8], ca
     }
     let s2 = match from(ctx, &c) {
         Err(p) => {
-            run.violation(format!("panic reparse at={region} seed={seed}"), format!("store_from_jumbf panicked on re-serialised bytes: {p}"), case());
+            violate(run, format!("panic reparse at={region}"), seed, format!("store_from_jumbf panicked on re-serialised bytes: {p}"), case());
             return "panic";
         }
         Ok(Err(e)) => {
-            run.violation(format!("reserialised-rejected at={region} err={e} seed={seed}"), format!("to(from(m)) is not accepted by the parser: {e}"), case());
+            violate(run, format!("reserialised-rejected at={region} err={e}"), seed, format!("to(from(m)) is not accepted by the parser: {e}"), case());
             return "reserialised-rejected";
         }
         Ok(Ok(s)) => s,
@@ -276,7 +292,7 @@ fn judge_mutant(run: &Run, ctx: &Context, seed: &str, region: &str, m: &[u8], ca
     let c2 = match to(&s2) {
         Ok(Ok(c2)) => c2,
         other => {
-            run.violation(format!("reserialise-twice-fails at={region} seed={seed}"), format!("second serialisation fails: {:?}", other.map(|r| r.map(|b| b.len()))), case());
+            violate(run, format!("reserialise-twice-fails at={region}"), seed, format!("second serialisation fails: {:?}", other.map(|r| r.map(|b| b.len()))), case());
             return "not-serialisable";
         }
     };
@@ -284,8 +300,7 @@ fn judge_mutant(run: &Run, ctx: &Context, seed: &str, region: &str, m: &[u8], ca
         println!("  accepted; |m|={} |to(from(m))|={} (first difference to m at {}), |to(from(to(from(m))))|={}", m.len(), c.len(), first_diff(m, &c), c2.len());
     }
     if c2 != c {
-        run.violation(
-            format!("fixed-point-differs at={region} seed={seed}"),
+        violate(run, format!("fixed-point-differs at={region}"), seed,
             format!("to(from(m)) has {} bytes, serialising its parse again gives {} bytes; first difference at offset {}", c.len(), c2.len(), first_diff(&c, &c2)),
             case(),
         );
@@ -369,13 +384,13 @@ pub fn run(run: &Run, replay: Option<&Value>) {
         // values per offset: brotli re-compression costs ~30-60 ms per accepted mutant, so compressed seeds get fewer values
         let per_pos: usize = match (run.tier.is_thorough(), compressed, n > 5000) {
             (false, true, _) => 1,
-            (false, false, _) => (60_000 / n).clamp(5, 255),
+            (false, false, _) => (30_000 / n).clamp(2, 255),
             (true, false, false) => 255,
             (true, false, true) => 64,
             (true, true, false) => 16,
             (true, true, true) => 2,
         };
-        // priority order: low bit, high bit, +1, 0x00, 0xFF, then the remaining xor masks
+        // priority order: low bit, high bit, '/', +1, 0x00, 0xFF, then the remaining xor masks
         let values = |b: u8| -> Vec<u8> {
             let mut v: Vec<u8> = vec![];
             let mut push = |x: u8| {
@@ -383,7 +398,7 @@ pub fn run(run: &Run, replay: Option<&Value>) {
                     v.push(x);
                 }
             };
-            for x in [b ^ 0x01, b ^ 0x80, b.wrapping_add(1), 0x00, 0xFF] {
+            for x in [b ^ 0x01, b ^ 0x80, b'/', b.wrapping_add(1), 0x00, 0xFF] {
                 push(x);
             }
             for k in 2..=255u8 {
@@ -438,6 +453,7 @@ pub fn run(run: &Run, replay: Option<&Value>) {
         let normalising: Vec<Value> = g.iter().filter(|(_, c)| c[2] > 0).map(|(k, c)| json!({"box": k, "rejected": c[0], "identical": c[1], "normalised": c[2]})).collect();
         run.extra(&format!("regions_with_normalised_mutants:{}", s.name), json!(normalising));
     }
+    run.extra("violation_classes(all cases, not capped)", json!(*CLASSES.lock().unwrap()));
 }
 
 fn check_produced(run: &Run, ctx: &Context, name: &str, b: &[u8], verbose: bool) -> bool {
